@@ -1,0 +1,16 @@
+//go:build verif
+
+package workers
+
+// Machine-checked contracts for /verif (read as text by the VC generator; no code).
+//
+// Channel operations are abstracted (a send is not tracked; either case of the select may fire).
+//@ // Enqueue hands the task to a worker or reports termination; nothing else
+//@ func (*Workers).Enqueue
+//@   requires w != nil
+//@   ensures  result == nil || result == errTerminated
+//@
+//@ // Drain discards queued tasks and returns once none is immediately available
+//@ func (*Workers).Drain
+//@   requires w != nil
+//@   loop 1 invariant true
